@@ -82,6 +82,7 @@ func VerifC02_PassEndState() {
 
 	// where every matching pod ends up
 	var placed []rPlaced
+	launchable := true
 	if runningMatches {
 		placed = append(placed, rPlaced{pod: -1, host: "node-1", zones: []string{"zone-1"}})
 	}
@@ -99,7 +100,7 @@ func VerifC02_PassEndState() {
 					zs = append(zs, z)
 				}
 			}
-			verifrt.Assert(len(zs) > 0, "a new NodeClaim can be launched in some zone")
+			launchable = launchable && len(zs) > 0
 			idx := -1
 			for k, nc := range results.NewNodeClaims {
 				if nc == pl.claim {
@@ -109,13 +110,14 @@ func VerifC02_PassEndState() {
 			placed = append(placed, rPlaced{pod: pi, host: "claim:" + strconv.Itoa(idx), zones: zs})
 		}
 	}
+	verifrt.Assert(launchable, "a new NodeClaim can be launched in some zone")
 	if len(placed) >= 2 {
 		verifrt.Reach("several-matching-pods")
 	}
 	switch shape {
 	case 3:
 		// placed[first] is the running pod when it matches; the carrier is the first pending replica
-		carrier := -1
+		carrier, apart := -1, true
 		for k := range placed {
 			if placed[k].pod == 0 {
 				carrier = k
@@ -127,28 +129,34 @@ func VerifC02_PassEndState() {
 			}
 			for _, a := range placed[carrier].zones {
 				for _, b := range placed[k].zones {
-					verifrt.Assert(a != b, "a pod is never put into a zone shared with a pod its required anti-affinity term selects, in either direction")
+					apart = apart && a != b
 				}
 			}
 		}
+		verifrt.Assert(apart, "a pod is never put into a zone shared with a pod its required anti-affinity term selects, in either direction")
 	case 0:
+		apart := true
 		for i := range placed {
 			for j := i + 1; j < len(placed); j++ {
 				for _, a := range placed[i].zones {
 					for _, b := range placed[j].zones {
-						verifrt.Assert(a != b, "no two pods under a required zonal anti-affinity can end up in the same zone")
+						apart = apart && a != b
 					}
 				}
 			}
 		}
+		verifrt.Assert(apart, "no two pods under a required zonal anti-affinity can end up in the same zone")
 	case 1:
+		apart := true
 		for i := range placed {
 			for j := i + 1; j < len(placed); j++ {
-				verifrt.Assert(placed[i].host != placed[j].host, "no two pods under a required hostname anti-affinity share a node")
+				apart = apart && placed[i].host != placed[j].host
 			}
 		}
+		verifrt.Assert(apart, "no two pods under a required hostname anti-affinity share a node")
 	case 2:
 		// every combination of zones the undetermined NodeClaims could end up in
+		within := true
 		var rec func(k int, counts map[string]int)
 		rec = func(k int, counts map[string]int) {
 			if k == len(placed) {
@@ -161,7 +169,7 @@ func VerifC02_PassEndState() {
 						max = counts[z]
 					}
 				}
-				verifrt.Assert(max-min <= maxSkew, "a DoNotSchedule zone spread stays within maxSkew in every zone assignment the NodeClaims allow")
+				within = within && max-min <= maxSkew
 				return
 			}
 			for _, z := range placed[k].zones {
@@ -171,5 +179,72 @@ func VerifC02_PassEndState() {
 			}
 		}
 		rec(0, map[string]int{})
+		verifrt.Assert(within, "a DoNotSchedule zone spread stays within maxSkew in every zone assignment the NodeClaims allow")
 	}
+}
+
+// Running pods that carry a required anti-affinity term keep the pods it selects out of their domains, however many
+// running pods share the term.
+func VerifC02_PassRespectsRunningGuards() {
+	w := pwNew(&opopts.Options{})
+	w.addPool("pool-1", 0)
+	w.addType("it-l", resource.MustParse("16"), []pwOffer{{"zone-1", v1.CapacityTypeOnDemand, 1, true}, {"zone-2", v1.CapacityTypeOnDemand, 1, true}, {"zone-3", v1.CapacityTypeOnDemand, 1, true}})
+	sel := &metav1.LabelSelector{MatchLabels: map[string]string{"app": "web"}}
+	guards := verifrt.Choice("guards", 1, verifrt.Bound("maxGuards", 2, 3))
+	key := []string{corev1.LabelTopologyZone, corev1.LabelHostname}[verifrt.Choice("topologyKey", 0, 1)]
+	guarded := map[string]bool{}
+	for i := 0; i < guards; i++ {
+		zone := rZones[verifrt.Choice("guard-"+strconv.Itoa(i)+".zone", 0, 2)]
+		name := "node-" + strconv.Itoa(i)
+		w.addNode(name, "pool-1", "it-l", v1.CapacityTypeOnDemand, zone, pwList(resource.MustParse("16")), pwInitialized)
+		g := w.addPod("guard-"+strconv.Itoa(i), name, resource.MustParse("1"))
+		g.Labels = map[string]string{"app": "guard"}
+		g.Spec.Affinity = &corev1.Affinity{PodAntiAffinity: &corev1.PodAntiAffinity{RequiredDuringSchedulingIgnoredDuringExecution: []corev1.PodAffinityTerm{{LabelSelector: sel, TopologyKey: key}}}}
+		if key == corev1.LabelTopologyZone {
+			guarded[zone] = true
+		} else {
+			guarded[name] = true
+		}
+	}
+	// a node without a guard, in any zone
+	freeZone := rZones[verifrt.Choice("free.zone", 0, 2)]
+	w.addNode("node-free", "pool-1", "it-l", v1.CapacityTypeOnDemand, freeZone, pwList(resource.MustParse("16")), pwInitialized)
+	zoneOf := map[string]string{"node-free": freeZone}
+	for i := 0; i < guards; i++ {
+		zoneOf["node-"+strconv.Itoa(i)] = w.kc.Nodes[i].Labels[corev1.LabelTopologyZone]
+	}
+	n := verifrt.Choice("replicas", 1, 2)
+	var pods []*corev1.Pod
+	for i := 0; i < n; i++ {
+		p := w.addPod("web-"+strconv.Itoa(i), "", verifrt.MilliQuantity("web-"+strconv.Itoa(i)+".cpu", 1, 16000))
+		p.Labels = map[string]string{"app": "web"}
+		pods = append(pods, p)
+	}
+	w.deliver()
+
+	results, err := w.prov.Schedule(w.ctx)
+	verifrt.Assert(err == nil, "the scheduling pass completes")
+	verifrt.Reach("pass")
+	clear := true
+	for _, p := range pods {
+		pl, _ := pwFind(results, p.UID)
+		switch {
+		case pl.existing != "":
+			verifrt.Reach("on-existing")
+			if key == corev1.LabelHostname {
+				clear = clear && !guarded[pl.existing]
+			} else {
+				clear = clear && !guarded[zoneOf[pl.existing]]
+			}
+		case pl.claim != nil:
+			verifrt.Reach("on-new")
+			if key == corev1.LabelTopologyZone {
+				zr := pl.claim.Requirements.Get(corev1.LabelTopologyZone)
+				for _, z := range rZones {
+					clear = clear && !(zr.Has(z) && guarded[z])
+				}
+			}
+		}
+	}
+	verifrt.Assert(clear, "a pod selected by the required anti-affinity term of a running pod is never put into that pod's domain, for every domain a new NodeClaim could end up in")
 }
